@@ -112,6 +112,10 @@ class _FaultyFile:
         return getattr(self._fh, name)
 
 
+# what a callback may answer to ask for a stop: the documented contract is `is not None`, so falsy values count
+CANCEL_ANSWERS = [True, False, 0, '', (), 0.0, 'stop', 1]
+
+
 def run_case(torf, wd, c):
     """returns observation dict"""
     from torf import _generate as G
@@ -198,7 +202,8 @@ def run_case(torf, wd, c):
             # ask to stop for the first error of a piece only; answer None to its further errors
             d = 'cancel' if nth == 0 else None
         if d == 'cancel':
-            return True
+            # "anything that is not None stops": the value is a dimension of the case (default True)
+            return CANCEL_ANSWERS[cbspec.get('answer', 0)]
         if d == 'raise':
             raise cb_exc
         if d == 'raise-base':
